@@ -263,24 +263,25 @@ fn lex_str_literal(lx: &mut Lexer<'_, Token>) -> Result<String, LexErr> {
         match mid {
             "\\" => {
                 // the next character is part of the escape:
-                let Some(esc) = right.as_bytes().first() else {
+                let Some(esc) = right.chars().next() else {
                     // The line ends right after the backslash, so the literal cannot be closed on this line.
                     break;
                 };
                 match esc {
-                    b'n'  => buf.push('\n'),
-                    b'r'  => buf.push('\r'),
-                    b't'  => buf.push('\t'),
-                    b'\\' => buf.push('\\'),
-                    b'0'  => buf.push('\0'),
-                    b'"'  => buf.push('\"'),
-                    &c => {
+                    'n'  => buf.push('\n'),
+                    'r'  => buf.push('\r'),
+                    't'  => buf.push('\t'),
+                    '\\' => buf.push('\\'),
+                    '0'  => buf.push('\0'),
+                    '"'  => buf.push('\"'),
+                    c => {
                         buf.push('\\');
-                        buf.push(char::from(c));
+                        buf.push(c);
                     }
                 }
                 
-                remaining = &right[1..];
+                // the escaped character may be longer than one byte
+                remaining = &right[esc.len_utf8()..];
             },
             "\"" => {
                 remaining = right;
